@@ -173,6 +173,21 @@ CLAIMS.update({
         ref="§7 C14"),
 })
 
+CLAIMS.update({
+    "C17": dict(
+        technique="Lean 4 invariant proof over every operation sequence of the UiTokenCollection model (add_from_byte_range, sort, update_tokens) + proof that the byte->character map sends character boundaries to character indices; tied to the code by replaying the implementation's own operation log (feature-gated hook) on the model; well-formedness oracle on multi-byte lines",
+        text="Proof: for ANY byte spans and any sequence `adds ; sort ; updates` on the collection of a line (what the tokenizer does), the final tokens satisfy "
+             "0 <= start < end <= number of characters, are ordered by start and never overlap (pipeline_ordered, from add_wf, sort_wf, sort_ordered, "
+             "update_inv; step_wf for arbitrary interleavings); positions are character positions: the byte offset of the k-th character maps to k and "
+             "the end of the line to the number of characters (pos_boundary, nchars_new, pos_le_nchars); kernel-checked witness that the former "
+             "collision test accepted nested spans (old_collision_witness). Tie: every collection's operation log emitted by the implementation "
+             "(hook verif_ui) is replayed on the model; final tokens and every byte->character translation must agree. 'Numbers, operators and comments "
+             "have their own kind over exactly their characters' is decided by enumeration of structured lines with multi-byte words (string level, "
+             "regexes not modelled). Three defects repaired in /repo (byte/char mixing, case-mapped copies, month name inside a comment).",
+        note="Trusted: Lean kernel + 3 axioms; the hook log is complete (all mutations of the collection go through the four logged operations); which spans the regexes report is outside the model.",
+        ref="§7 C17"),
+})
+
 NOT_YET = {}
 
 
@@ -203,7 +218,7 @@ def main():
             "guard": "verif-hooks",
             "enable": "cargo feature: the harness crate /verif/harness depends on smartcalc with features = [\"verif-hooks\"]",
             "baseline_off_cmd": "cd /repo && cargo test --workspace --no-fail-fast --offline",
-            "source_commits": ["5da8a33"],
+            "source_commits": ["5da8a33", "fca7671"],
             "add_only": True,
         },
         "engines": [{
